@@ -206,7 +206,7 @@ def strategy_for(kind):
             r = R if isinstance(R, int) else draw(R)
             cplx = draw(st.sampled_from([False, False, True]))
             coll = draw(st.sampled_from([None, None, "coll"]))
-            shape = draw(C.shapes(5)) if coll else None
+            shape = draw(st.one_of(C.shapes(5), st.sampled_from([[2, 3], [3, 2], [4, 3]]))) if coll else None
             if tier == "thorough" and coll and draw(st.integers(0, 19)) == 0:
                 shape = [70]
             npos = C.prod(shape) if shape else 1
@@ -221,8 +221,11 @@ def strategy_for(kind):
             mags = None
             if shape and npos > 1 and draw(st.booleans()):
                 mags = [draw(st.sampled_from([0, 0, 8, 15])) for _ in range(npos)]
+            lowrank = None
+            if shape and len(shape) == 2 and draw(st.booleans()):
+                lowrank = [draw(st.integers(0, nargs - 1))] if draw(st.booleans()) else [k for k in range(nargs) if draw(st.booleans())]
             return {"kind": kind, "cplx": cplx, "shape": shape, "elems": elems, "coefs": coefs, "scales": scales,
-                    "bcast": bcast, "via": via, "int_dtype": ints, "mags": mags}
+                    "bcast": bcast, "via": via, "int_dtype": ints, "mags": mags, "lowrank": lowrank}
 
         return s()
 
@@ -270,6 +273,15 @@ def run(case):
                 a, b = [Fraction(x) for x in case["coefs"][i]]
                 on = [a * x + b * y for x, y in zip(fp, fq)]
                 per_pos_args[i][1 - bc] = ("L", on, base[2])
+    # arguments with fewer collection axes than the others (aligned from the right): constant along the first axis
+    low = [k for k in (case.get("lowrank") or []) if k != bc]
+    if low and shape is not None and len(shape) == 2 and kind not in ("join_ll3", "meet_ll3") and len(low) + (bc is not None) < nargs:
+        K = shape[1]
+        for i in range(npos):
+            for k in low:
+                per_pos_args[i][k] = per_pos_args[i % K][k]
+    else:
+        low = []
     for i in range(npos):
         r = exact_result(kind, per_pos_args[i], n)
         if r is None:
@@ -281,6 +293,8 @@ def run(case):
         idt = bool(case.get("int_dtype", [False] * nargs)[k])
         if shape is None or bc == k:
             objs.append(build_single(per_pos_args[0][k], case["scales"][k], cplx, None, idt))
+        elif k in low:
+            objs.append(build_coll([per_pos_args[i][k] for i in range(shape[1])], case["scales"][k], cplx, [shape[1]], idt))
         else:
             objs.append(build_coll([per_pos_args[i][k] for i in range(npos)], case["scales"][k], cplx, shape, idt, case.get("mags")))
     ck = Checker()
@@ -372,6 +386,8 @@ def labels(case):
         out.append("broadcast")
     if not case["cplx"] and any(v[-1] == 0 for el in case["elems"] for v in el):
         out.append("has-infinite")
+    if case.get("lowrank") and case["shape"] and len(case["shape"]) == 2 and 0 < len([k for k in case["lowrank"] if k != case["bcast"]]) < len(case["scales"]) - (case["bcast"] is not None):
+        out.append("collections-of-different-rank")
     if case.get("mags") and len(set(case["mags"])) > 1:
         out.append("mixed-magnitude-collection")
     if any(case.get("int_dtype", [])) and not all(case.get("int_dtype", [])):
@@ -455,9 +471,9 @@ LAWS = [
         run=run,
         nontrivial=nontrivial,
         labels=labels,
-        budget={"quick": 220, "thorough": 6000},
+        budget={"quick": 300 if k in ("join_ppp3", "meet_eee3") else 220, "thorough": 6000},
         rule=f"{k}: exact span/intersection, all argument permutations, normalisation, incidence",
-        mandatory=("collection", "complex", "single") + (("mixed-magnitude-collection",) if k in ("join_pp2", "meet_ll2", "join_pp3") else ()),
+        mandatory=("collection", "complex", "single") + (("mixed-magnitude-collection",) if k in ("join_pp2", "meet_ll2", "join_pp3") else ()) + (("collections-of-different-rank",) if k in ("join_ppp3", "meet_eee3") else ()),
     )
     for k in KINDS
 ] + [
